@@ -238,3 +238,82 @@ func VerifH_C19_ConcurrentHits() {
 	verifrt.Reach("next-refresh")
 	verifrt.Assert(up.started == 2 && len(r.prefetch.queue) == 0, "a later hit starts the next refresh, once")
 }
+
+// vHoldFirst answers like vKeyedUpstream (TTL 60 s) but keeps chosen exchanges pending until the gate opens: the first one
+// (a slow refresh) and, later, every one started after `holdFrom` (so that refreshes started late stay visible).
+type vHoldFirst struct {
+	vKeyedUpstream
+	gate     chan struct{}
+	started  int
+	holdFrom int
+	waiting  int
+	maxWait  int
+}
+
+func (u *vHoldFirst) ExchangeContext(ctx context.Context, q []byte) (*dnsmsg.Msg, error) {
+	u.started++
+	if u.started == 1 || (u.holdFrom > 0 && u.started >= u.holdFrom) {
+		u.waiting++
+		if u.waiting > u.maxWait {
+			u.maxWait = u.waiting
+		}
+		<-u.gate
+		u.waiting--
+	}
+	return u.vKeyedUpstream.ExchangeContext(ctx, q)
+}
+
+// VerifH_C19_SingleFlightAcrossExpiry: "at most one background refresh per (question, client group) is in flight at any
+// time" over a longer history, under a harness-controlled clock: a cached answer (60 s) is hit at 50 s — refresh R1
+// starts and its upstream exchange stays pending; the entry expires; at 61 s the same question is an ordinary miss,
+// answered by a prompt upstream exchange and stored again; at 61 s + 50 s the new entry is hit inside its refresh
+// window while R1 is STILL pending. That hit is answered from the cache at once and must not start a second refresh:
+// never more than one exchange for this question is pending in the background.
+func VerifH_C19_SingleFlightAcrossExpiry() {
+	verifrt.Unwind(400)
+	verifrt.SchedBound(1)
+	verifrt.NoTimers()
+	verifrt.CtxNoExpiry = true
+	base := time.Unix(1700000000, 0)
+	offset := time.Duration(0)
+	verifrt.Redirect("time.Now", func() time.Time { return base.Add(offset) })
+	verifrt.Redirect("time.Until", func(t time.Time) time.Duration { return t.Sub(base.Add(offset)) })
+	verifrt.Redirect("time.Since", func(t time.Time) time.Duration { return base.Add(offset).Sub(t) })
+	up := &vHoldFirst{gate: make(chan struct{})}
+	uw := &upstreamWrapper{tag: "up", u: up}
+	r := vRouter([]*rule{{upstream: uw}}, true)
+	ask := func() *RequestContext {
+		q := dnsmsg.NewQuestion()
+		q.Name, q.Type, q.Class = dnsmsg.Name([]byte{1, 'q'}), 1, 1
+		rc := getRequestContext()
+		r.handleReq(context.Background(), q, rc)
+		verifrt.Quiesce()
+		return rc
+	}
+	// seed the cache directly (the first real upstream exchange is to be the refresh R1)
+	q0 := dnsmsg.NewQuestion()
+	q0.Name, q0.Type, q0.Class = dnsmsg.Name([]byte{1, 'q'}), 1, 1
+	seed := dnsmsg.NewMsg()
+	seed.Header.Response = true
+	seed.Questions = append(seed.Questions, q0.Copy())
+	a := dnsmsg.NewA()
+	a.Name, a.Type, a.Class, a.TTL = dnsmsg.Name([]byte{1, 'q'}), dnsmsg.TypeA, 1, 60
+	seed.Answers = append(seed.Answers, a)
+	r.cache.Store(q0, netip.Addr{}, seed)
+	offset = 50 * time.Second
+	rc1 := ask()
+	verifrt.Assert(rc1.Response.Cached && up.started == 1 && up.waiting == 1, "hit in the refresh window: answered from cache, refresh R1 started and pending")
+	offset = 61 * time.Second
+	verifrt.OtterEvictAll() // the 60 s entry's time-to-live is over: the cache library has dropped it
+	rc2 := ask()
+	verifrt.Assert(!rc2.Response.Cached && rc2.Response.Msg != nil && rc2.Response.Msg.RCode == 0 && up.started == 2, "after expiry: an ordinary miss, answered by its own prompt exchange")
+	up.holdFrom = 3
+	offset = 61*time.Second + 50*time.Second
+	rc3 := ask()
+	verifrt.Reach("second-window")
+	verifrt.Assert(rc3.Response.Cached, "the re-stored entry is hit inside its refresh window")
+	verifrt.Assert(up.maxWait <= 1 && up.started == 2, "while refresh R1 is still pending no second refresh for the same question is started")
+	close(up.gate)
+	verifrt.Quiesce()
+	verifrt.Assert(len(r.prefetch.queue) == 0, "when R1 ends its mark is cleared")
+}
